@@ -1,7 +1,7 @@
 CONSTANTS
-  Alphabet = {16, 42, 198, 170, 133, 200, 232, 204, 130, 192, 129, 128, 236, 212}
+  Alphabet = {16, 42, 198, 170, 133, 200, 232, 204, 192, 129, 236, 212}
   MaxLen = 5
-  Distinct = FALSE
+  Distinct = TRUE
   Arbs = {49, 170}
 INIT Init
 NEXT Next
